@@ -225,9 +225,94 @@ def rand_program(r: random.Random, maxops: int) -> bytes:
     return out
 
 
+def _tagged(tag: bytes, m: bytes) -> bytes:
+    t = hashlib.sha256(tag).digest()
+    return hashlib.sha256(t + t + m).digest()
+
+
+def _leaf_hash(ver: int, script: bytes) -> bytes:
+    ln = bytes([len(script)]) if len(script) < 253 else b"\xfd" + len(script).to_bytes(2, "little")
+    return _tagged(b"TapLeaf", bytes([ver]) + ln + script)
+
+
+def tapscript_spend(r: random.Random, prog: bytes, init: list[bytes], flags: list[str], ctx: tuple[int, int, int]) -> dict[str, Any]:
+    """A taproot script-path spend of `prog` (raw bytes) in a tree of 1..3 leaves, honest or altered."""
+    from btclib.script import taproot
+
+    if r.random() < 0.3:
+        # OP_SUCCESSx and 0xff around the program: the pre-scan decides before anything is executed
+        filler = bytes([r.choice([0x50, 0x62, 0x7E, 0x89, 0x8D, 0xBB, 0xFE, 0xFF, 0x65])])
+        prog = r.choice([prog + filler, filler + prog, b"\x00\x63" + filler + b"\x68" + prog])
+    ver = r.choice([0xC0, 0xC0, 0xC0, 0xC2, 0xFA])
+    me = _leaf_hash(ver, prog)
+    path = [_leaf_hash(0xC0, bytes([0x51 + k])) for k in range(r.randrange(0, 3))]
+    k = me
+    for e in path:
+        k = _tagged(b"TapBranch", min(k, e) + max(k, e))
+    px = bytes.fromhex("79be667ef9dcbbac55a06295ce870b07029bfcdb2dce28d959f2815b16f81798") if r.random() < 0.5 else \
+        bytes.fromhex("c6047f9441ed7d6d3045406e95c07cd85c778e4b8cef3ca7abac09b95c709ee5")
+    q, parity = taproot.output_pubkey_from_merkle_root(px, k)
+    control = bytes([ver + parity]) + px + b"".join(path)
+    m = r.random()
+    why = "honest"
+    if m < 0.08:
+        control = bytes([control[0] ^ r.choice([1, 2, 4, 0x80])]) + control[1:]
+        why = "control first byte altered"
+    elif m < 0.14:
+        pos = r.randrange(1, len(control))
+        control = control[:pos] + bytes([control[pos] ^ 1]) + control[pos + 1:]
+        why = "control altered"
+    elif m < 0.18:
+        control = control + bytes(r.choice([1, 31, 32]))
+        why = "control size"
+    elif m < 0.21:
+        control = control[: r.choice([0, 1, 32, 33])]
+        why = "control truncated"
+    witness = init + [prog, control]
+    if r.random() < 0.15:
+        witness = witness + [b"\x50" + r.randbytes(3)]
+        why += "+annex"
+    spk = b"\x51\x20" + q
+    script_sig = b"" if r.random() < 0.95 else b"\x51"
+    ok = run_spend(script_sig, spk, witness, flags, ctx)
+    return {"op": "spend", "kind": "tapscript", "why": why, "scriptSig": script_sig.hex(), "spk": spk.hex(), "witness": [w.hex() for w in witness],
+            "flags": flags, "ctx": ctxj(ctx), "ok": ok}
+
+
+def honest_tapscript(prog: bytes, init: list[bytes], flags: list[str], why: str, ver: int = 0xC0) -> dict[str, Any]:
+    from btclib.script import taproot
+
+    ctx = (2, 0, 0xFFFFFFFF)
+    px = bytes.fromhex("79be667ef9dcbbac55a06295ce870b07029bfcdb2dce28d959f2815b16f81798")
+    q, parity = taproot.output_pubkey_from_merkle_root(px, _leaf_hash(ver, prog))
+    control = bytes([ver + parity]) + px
+    spk = b"\x51\x20" + q
+    witness = init + [prog, control]
+    return {"op": "spend", "kind": "tapscript", "why": why, "scriptSig": "", "spk": spk.hex(), "witness": [w.hex() for w in witness], "flags": flags,
+            "ctx": ctxj(ctx), "ok": run_spend(b"", spk, witness, flags, ctx)}
+
+
+def fixed_cases() -> list[dict[str, Any]]:
+    """Deterministic corners that are always in the corpus (incl. the reproducers of the listed findings)."""
+    tf = ["P2SH", "TAPROOT", "WITNESS"]
+    out = []
+    for prog, why in ((b"\x00\x63\xff\x68\x51", "0xff in an unexecuted branch"), (b"\xff\x50", "0xff ahead of OP_SUCCESS80"), (b"\x51\xff", "0xff executed"),
+                      (b"\x00\x63\x65\x68\x51", "OP_VERIF unexecuted"), (b"\x65\x50", "OP_VERIF ahead of OP_SUCCESS80"), (b"\x50\x4c", "OP_SUCCESS then a truncated push"),
+                      (b"\x4c\x50", "a truncated push then OP_SUCCESS"), (b"\x51", "OP_1"), (b"\x51\x51", "two elements left"), (b"\x00", "false"),
+                      (b"\x00\x63\x7e\x68\x51", "OP_CAT is OP_SUCCESS126 even unexecuted"), (b"\x02\x00\x00\x63\x51\x68", "non-minimal IF argument"), (b"\x02\x00\x00\x64\x51\x68\x51", "non-minimal NOTIF argument"),
+                      (b"\x01\x02\x63\x51\x68", "IF argument 02"), (b"\x01\x02\x64\x51\x68\x51", "NOTIF argument 02"), (b"\x00\x64\x51\x68", "NOTIF on empty")):
+        out.append(honest_tapscript(prog, [], tf, why))
+        out.append(honest_tapscript(prog, [], tf + ["DISCOURAGE_OP_SUCCESS", "MINIMALIF"], why + " (discourage)"))
+    out.append(honest_tapscript(b"\x75\x50", [b"\x01" * 521], tf, "oversized witness element with OP_SUCCESS"))
+    out.append(honest_tapscript(b"\x75\x51", [b"\x01" * 521], tf, "oversized witness element"))
+    out.append(honest_tapscript(b"\x51", [], tf, "unknown leaf version", ver=0xC2))
+    out.append(honest_tapscript(b"\x51", [], tf + ["DISCOURAGE_UPGRADABLE_TAPROOT_VERSION"], "unknown leaf version (discourage)", ver=0xC2))
+    return out
+
+
 def record_spends(run: Run, n: int) -> list[dict[str, Any]]:
     r = random.Random(run.seed + 8)
-    evs: list[dict[str, Any]] = []
+    evs: list[dict[str, Any]] = fixed_cases()
     ctxs = [(2, 0, 0xFFFFFFFF), (1, 0, 0xFFFFFFFF), (2, 100, 5), (2, 500000001, 0x00400005), (2, 99, 0xFFFFFFFE), (1, 100, 5), (2, 100, 0x80000005)]
     for k in range(n):
         ctx = r.choice(ctxs)
@@ -238,7 +323,10 @@ def record_spends(run: Run, n: int) -> list[dict[str, Any]]:
             # programs that succeed, leaving exactly one true element: the wrapping rules are what is exercised
             prog = r.choice(GOOD)
             init = []
-        kind = r.choice(["bare", "bare", "p2sh", "p2wsh", "p2sh-p2wsh", "witness-other", "eval", "eval-v0"])
+        kind = r.choice(["bare", "bare", "p2sh", "p2wsh", "p2sh-p2wsh", "witness-other", "eval", "eval-v0", "tapscript", "tapscript"])
+        if kind == "tapscript":
+            evs.append(tapscript_spend(r, prog, init, flags, ctx))
+            continue
         if kind.startswith("eval"):
             sv = "v0" if kind == "eval-v0" else "base"
             ok, out = run_eval(prog, init, flags, sv, ctx)
@@ -255,6 +343,8 @@ def record_spends(run: Run, n: int) -> list[dict[str, Any]]:
             script_sig = pushes + push_data(prog)
             if r.random() < 0.15:
                 script_sig = pushes + b"\x61" + push_data(prog)       # not push-only
+            if r.random() < 0.25:
+                witness = [r.randbytes(r.randrange(0, 4))]             # a witness stapled on a non-witness spend
         elif kind == "p2wsh":
             spk = b"\x00\x20" + hashlib.sha256(prog).digest()
             script_sig = b"" if r.random() < 0.85 else b"\x51"
@@ -286,6 +376,20 @@ def record_spends(run: Run, n: int) -> list[dict[str, Any]]:
         evs.append({"op": "spend", "kind": kind, "scriptSig": script_sig.hex(), "spk": spk.hex(), "witness": [w.hex() for w in witness], "flags": flags,
                     "ctx": ctxj(ctx), "ok": ok})
     return evs
+
+
+def tapscript_class(e: dict[str, Any]) -> str:
+    """Which tapscript corner a failing spend sits on (for the finding key)."""
+    try:
+        w = [bytes.fromhex(x) for x in e["witness"]]
+        if len(w) >= 2 and w[-1][:1] == b"\x50":
+            w = w[:-1]
+        script = w[-2]
+    except Exception:  # noqa: BLE001
+        return ""
+    if 0xFF in script:
+        return "byte 0xff in the script"
+    return ""
 
 
 REPRODUCERS = [
@@ -335,6 +439,8 @@ def check(run: Run) -> None:
         d = diag.get(k) or {}
         verdict = d.get("verdict", "?") if isinstance(d, dict) else "?"
         key = f"script|{e['op']}|{e.get('kind', '')}|{verdict or 'OK'}|code={'accepts' if e['ok'] else 'refuses'}"
+        if e.get("kind") == "tapscript":
+            key += "|" + tapscript_class(e)
         run.violation(key, f"{e.get('kind')} spend / program: btclib {'accepts' if e['ok'] else 'refuses'}, Core's rules give {verdict or 'OK'} "
                            f"(scriptSig {e.get('scriptSig', '')[:60]}, spk/script {e.get('spk', e.get('script', ''))[:60]}, flags {e['flags']})",
                       {"event": e, "spec": d})
